@@ -495,3 +495,8 @@ Proof.
     rewrite snap_of_layer_get, get_char_spec, !Z.sub_0_r, (inb_meta L' L _ _ M), Ei, !Nat2Z.id. reflexivity.
   - symmetry. apply D. exact E.
 Qed.
+
+Lemma frame_sound L L' ax ay aw ah old new :
+  differs L L' (ax, ay, aw, ah) -> from_layer L (ax, ay, aw, ah) = Ok old -> from_layer L' (ax, ay, aw, ah) = Ok new ->
+  leqv (l_restore L' ax ay old) L /\ leqv (l_restore L ax ay new) L'.
+Proof. intros. split; [eapply frame_undo|eapply frame_redo]; eauto. Qed.
